@@ -316,13 +316,21 @@ class SymbolicExpression(Generic[T], ABC):
         self._plot_color__ = value
         self._node_.color = value
 
+    def _if_not_in_symbolic_mode_raise_error_(self, method_name: str) -> None:
+        if not in_symbolic_mode():
+            raise AttributeError(f"You are not in symbolic_mode {self.__class__.__name__} object has no attribute"
+                                 f" {method_name}")
+
     def __and__(self, other):
+        self._if_not_in_symbolic_mode_raise_error_('__and__')
         return AND(self, other)
 
     def __or__(self, other):
+        self._if_not_in_symbolic_mode_raise_error_('__or__')
         return _optimize_or(self, other)
 
     def __invert__(self):
+        self._if_not_in_symbolic_mode_raise_error_('__invert__')
         return Not(self)
 
     def __enter__(self, in_rule_mode: bool = False):
@@ -402,11 +410,6 @@ class CanBehaveLikeAVariable(SymbolicExpression[T], ABC):
     def __ge__(self, other) -> Comparator:
         self._if_not_in_symbolic_mode_raise_error_('__ge__')
         return Comparator(self, other, operator.ge)
-
-    def _if_not_in_symbolic_mode_raise_error_(self, method_name: str) -> None:
-        if not in_symbolic_mode():
-            raise AttributeError(f"You are not in symbolic_mode {self.__class__.__name__} object has no attribute"
-                                 f" {method_name}")
 
     def __hash__(self):
         return super().__hash__()
